@@ -171,6 +171,10 @@ Record orun := mkORun {
   or_sets : list (list nat);      (* apply sets, as ids, exact order *)
   or_cyc : option (list nat);     (* ids of the cyclic dependency error *)
   or_bad : list nat;              (* ids of the other validation errors, in order *)
+  (* graph.DependencyGraph on the same objects: Dependencies(id) of every table
+     id as (from, to) pairs, and the ids named by its error, in order *)
+  or_edges : list (nat * nat);
+  or_dgbad : list nat;
   or_panic : bool
 }.
 
@@ -183,11 +187,21 @@ Definition o_agree (tab : list id) (r : orun) : bool :=
       list_eqb nl_eqb (s_sets s) (or_sets r)
       && option_eqb nl_eqb (s_cyc s) (or_cyc r)
       && nl_eqb (s_bad s) (or_bad r)
+      (* DependencyGraph: the edge relation, and the error ids pass by pass *)
+      && set_eq_pairs (all_edges Nat.eqb (tab_id tab) (or_objs r)) (or_edges r)
+      (* every adjacency list in insertion order: this is what pins the ORDER
+         of the four edge passes (CRD, namespace, depends-on, mutation) *)
+      && (let g := dependency_graph Nat.eqb (tab_id tab) (or_objs r) in
+          forallb (fun v => nl_eqb (adj_of Nat.eqb g v)
+                                   (map snd (filter (fun e => Nat.eqb (fst e) v) (or_edges r))))
+                  (seq 0 (List.length tab)))
+      && nl_eqb (dep_errors Nat.eqb (or_objs r)) (or_dgbad r)
   end.
 
 (* the dependency relation an object list denotes, stated directly: explicit
-   references that are part of the set, the Namespace object of the object's
-   namespace, the CRD object defining the object's group/kind *)
+   depends-on references that are part of the set, apply-time-mutation sources
+   that are part of the set, the Namespace object of the object's namespace,
+   the CRD object defining the object's group/kind *)
 Definition spec_edges (tab : list id) (objs : list (obj nat)) : list (nat * nat) :=
   let ids := map oid objs in
   flat_map (fun o =>
@@ -196,6 +210,10 @@ Definition spec_edges (tab : list id) (objs : list (obj nat)) : list (nat * nat)
      | Deps l => map (fun d => (oid o, d)) (filter (fun d => inb d ids) l)
      | _ => []
      end)
+    ++ (match omuts o with
+        | Muts l => map (fun d => (oid o, d)) (filter (fun d => inb d ids) l)
+        | _ => []
+        end)
     ++ flat_map (fun o' =>
          let i' := tab_id tab (oid o') in
          (if negb (String.eqb (ns i) "") && String.eqb (grp i') "" && String.eqb (knd i') "Namespace"
@@ -209,6 +227,26 @@ Definition spec_edges (tab : list id) (objs : list (obj nat)) : list (nat * nat)
                   end
              else [])) objs) objs.
 
+(* the objects that must be reported invalid, stated directly: first those
+   whose depends-on annotation is unparseable, repeats a reference or leaves
+   the set; then those whose apply-time-mutation annotation is unparseable or
+   has a source outside the set (a repeated source is fine) *)
+Definition spec_dep_bad (ids : list nat) (o : obj nat) : bool :=
+  match odeps o with
+  | NoAnnot => false
+  | BadAnnot => true
+  | Deps l => negb (nodup_nat l) || negb (forallb (fun d => inb d ids) l)
+  end.
+Definition spec_mut_bad (ids : list nat) (o : obj nat) : bool :=
+  match omuts o with
+  | NoMut => false
+  | BadMut => true
+  | Muts l => negb (forallb (fun d => inb d ids) l)
+  end.
+Definition spec_bad (objs : list (obj nat)) : list nat :=
+  let ids := map oid objs in
+  map oid (filter (spec_dep_bad ids) objs) ++ map oid (filter (spec_mut_bad ids) objs).
+
 Definition o_monitor (tab : list id) (r : orun) : bool :=
   let verts := dedup_nat (map oid (or_objs r)) in
   let es := spec_edges tab (or_objs r) in
@@ -217,7 +255,13 @@ Definition o_monitor (tab : list id) (r : orun) : bool :=
   && mon_layering verts es (or_sets r) rest
   && forallb (strictly_sorted (fun a b => spec_lt (tab_id tab a) (tab_id tab b))) (or_sets r)
   && strictly_sorted (fun a b => spec_lt (tab_id tab a) (tab_id tab b)) rest
-  && match or_cyc r with Some [] => false | _ => true end.
+  && match or_cyc r with Some [] => false | _ => true end
+  (* exactly the objects with a rejected annotation are reported, depends-on
+     pass first, by SortObjs and by DependencyGraph *)
+  && nl_eqb (or_bad r) (spec_bad (or_objs r))
+  && nl_eqb (or_dgbad r) (spec_bad (or_objs r))
+  (* the graph has exactly the edges of the relation *)
+  && set_eq_pairs (or_edges r) es.
 
 Definition o_same (r0 r : orun) : bool :=
   list_eqb nl_eqb (or_sets r0) (or_sets r)
